@@ -15,11 +15,14 @@ CONSTANTS
   LatchError = TRUE
   CountAccepted = TRUE
   KeepFirstError = FALSE
+  LatchOn = "err"
   Modes = {"silent"}
   Pieces = {0}
   GivenFile = ""
   MaxCalls = 1
   LaterModes = {"silent"}
   FreshPerCall = TRUE
+  ShareChoices = {FALSE}
+  PerWriterWrapper = FALSE
 INVARIANTS TypeOK CountExact SilentStillCounts PrefixDeliveredAnyWriter
 CHECK_DEADLOCK FALSE
